@@ -185,10 +185,16 @@ def rules(ctx):
     ctx.obligations[before:] = [o_ for o_ in ctx.obligations[before:] if o_.id.endswith(("getter.start_time", "getter.end_time", "getter.start_location", "getter.end_location"))]
     for o_ in ctx.obligations[before:]:
         o_.id = o_.id.replace("C10/R1.", "C10/R2.model.")
+    from .C17 import timing_rule as _timing
+    before = len(ctx.obligations)
+    _timing(ctx)                                # ... and the turnaround tables themselves
+    for o_ in ctx.obligations[before:]:
+        o_.id = o_.id.replace("C10/R3.", "C10/R2.timing.")
     from . import formulas as _fm
     before = len(ctx.obligations)
     _fm.three_opt_details(ctx, "R3")      # every vehicle in exactly one cycle: a re-ordered cycle is a permutation of the old one
     ctx.obligations[before:] = [o_ for o_ in ctx.obligations[before:] if "new-cycle" in o_.id or "index" in o_.id]
+    _fm.overflow_capacity_formula(ctx, "R4")   # "depot limits hold" includes the overflow depot: its capacity covers what can be sent there
     from .C15 import empty_cycle_bookkeeping
     empty_cycle_bookkeeping(ctx)     # every vehicle sits in exactly one cycle: the free-list never hands out an occupied cycle
     # the producer-set and guard rules behind the tour / limit / membership invariants
